@@ -28,8 +28,9 @@ def ck_eq(lhs_name, terms, what='=='):
     return 'want = sum(b[t] for t in %r); bad = b[%r] != want; print(%r, float(b[%r]), "expected", float(want))' % (terms, lhs_name, lhs_name, lhs_name)
 
 
-def work(plan):
-    su = Setup(plan)
+def work(item):
+    plan, order, tag = item
+    su = Setup(plan, order=order, order_tag=tag)
     rec = su.base_rec()
     if not su.ok or su.untranslatable:
         return rec
@@ -156,13 +157,14 @@ def run(tier, seed):
     chk.outside = ['markets of hand-written subclasses', 'topologies outside the zoo grammar']
 
     def on_ob(rec, ob):
-        chk.ob(ob['verdict'], '%s %s' % (rec['plan'], ob['what']), distinct=(rec['plan'], ob['what']))
+        chk.ob(ob['verdict'], '%s %s' % (rec['plan'], ob['what']), distinct=(rec['plan'], rec['order_tag'], ob['what']))
         chk.sample({'topology': rec['plan'], 'obligation': ob['kind'], 'what': ob['what'][:300], 'verdict': ob['verdict']}, cap=16)
         chk.count('kind:' + ob['kind'])
         if ob['verdict'] == 'sat':
-            key = '%s:%s' % (rec['plan'], ob['what'][:200])
-            src = EXACT_REPLAY_HEAD % dict(plan=rec['plan'], cex=ob['cex']) + ob['check'] + '\nsys.exit(1 if bad else 0)\n'
-            chk.violation(key, 'topology %s: %s fails' % (rec['plan'], ob['what']), src)
-    absorb(chk, pmap(work, plans), on_ob)
+            key = '%s:%s:%s' % (rec['plan'], rec['order_tag'], ob['what'][:200])
+            src = EXACT_REPLAY_HEAD % dict(plan=rec['plan'], cex=ob['cex'], order=rec['order']) + ob['check'] + '\nsys.exit(1 if bad else 0)\n'
+            chk.violation(key, 'topology %s (declaration order: %s): %s fails' % (rec['plan'], rec['order_tag'], ob['what']), src)
+    from vf.zoolib import plan_orders
+    absorb(chk, pmap(work, plan_orders(plans, tier)), on_ob)
     chk.exhaustive = True
     return chk.finish()
